@@ -179,10 +179,18 @@ func fxArmStatement(fn *ssa.Function, at ssa.Instruction) string {
 
 func fxCheckCounts(c *Ctx, fn *ssa.Function) {
 	calleeOf := func(cs map[*ssa.Call]bool) (string, *ssa.Call) {
+		// the first call in source order (several calls are a violation anyway; the
+		// name in the message must not depend on map iteration)
+		var best *ssa.Call
 		for call := range cs {
-			return core.StaticCallee(call).Name(), call
+			if best == nil || call.Pos() < best.Pos() {
+				best = call
+			}
 		}
-		return "", nil
+		if best == nil {
+			return "", nil
+		}
+		return core.StaticCallee(best).Name(), best
 	}
 	judge := func(o *fxCnt, allowOne bool) (ok bool, why string) {
 		if len(o.other) > 0 {
